@@ -10,6 +10,8 @@
 
 package runtime
 
+import "github.com/open2b/scriggo/ast"
+
 // ---- specification helpers (interpreted by govc) ----
 
 func old[T any](x T) T   { return x }
@@ -33,6 +35,10 @@ func exists(lo, hi int, p func(int) bool) bool {
 
 // entry(x) is the value x had when the loop whose invariant mentions it was entered.
 func entry[T any](x T) T { return x }
+
+// VerifDecodeRenderContext exposes decodeRenderContext to the compiler's
+// contract file (lemma: the two copies agree).
+func VerifDecodeRenderContext(c Context) (ast.Context, bool, bool) { return decodeRenderContext(c) }
 
 // ---- spec functions ----
 
